@@ -1233,6 +1233,10 @@ func (c *Compat) BitCount(ctx context.Context, key string, bitCount *BitCount) *
 		resp = c.client.Do(ctx, c.client.B().Bitcount().Key(key).Start(bitCount.Start).End(bitCount.End).Byte().Build())
 	case BitCountIndexBit:
 		resp = c.client.Do(ctx, c.client.B().Bitcount().Key(key).Start(bitCount.Start).End(bitCount.End).Bit().Build())
+	default:
+		// still issue exactly one command (the server rejects the unit), otherwise a pipeline would hold a
+		// Cmder without a command and hand every later Cmder the reply of its successor
+		resp = c.client.Do(ctx, c.client.B().Arbitrary("BITCOUNT").Keys(key).Args(strconv.FormatInt(bitCount.Start, 10), strconv.FormatInt(bitCount.End, 10), bitCount.Unit).Build())
 	}
 	return newIntCmd(resp)
 }
